@@ -417,7 +417,43 @@ def shacl_shapemap_problems():
     return problems
 
 
+def literal_answers_problems():
+    """a {_ p FOCUS} pattern / SPARQL selector whose answers include a literal: every answer is a node of the shape (fixed and JSON syntax)."""
+    import json as _json
+    from shexer.shaper import Shaper
+    from shexer.consts import JSON, FIXED_SHAPE_MAP
+    doc = '<http://ex.org/a> <http://ex.org/r> "lit" .\n<http://ex.org/a> <http://ex.org/r> <http://ex.org/b> .\n<http://ex.org/b> <http://ex.org/s> "x" .\n'
+    problems = []
+    for sel in ("{_ ex:r FOCUS}", "SPARQL 'SELECT ?o WHERE { ?s <http://ex.org/r> ?o . }'"):
+        for fmt in ("fsm", "json"):
+            sm = _json.dumps([{"nodeSelector": sel, "shapeLabel": "<http://sh.org/R>"}]) if fmt == "json" else sel + "@<http://sh.org/R>"
+            out = Shaper(raw_graph=doc, shape_map_raw=sm, shape_map_format=JSON if fmt == "json" else FIXED_SHAPE_MAP, namespaces_dict={"http://ex.org/": "ex", "http://sh.org/": "sx"},
+                         instances_report_mode="abs", remove_empty_shapes=False).shex_graph(string_output=True)
+            if "sx:R   # 2 instances." not in out:
+                problems.append("selector %r (%s) denotes the literal and the IRI value of ex:r: expected 'sx:R   # 2 instances.' in\n%s" % (sel, fmt, out))
+    return problems
+
+
+def target_class_spellings_problems():
+    """target_classes given as full, <bracketed> or prefixed IRIs (one class without instances), empty shapes kept or not: the same shapes as with full IRIs."""
+    from shexer.shaper import Shaper
+    ns = {"http://ex.org/": "ex"}
+    problems = []
+    for keep in (False, True):
+        want = Shaper(raw_graph=SEL_DOC, target_classes=["http://ex.org/C", "http://ex.org/D", "http://ex.org/Z"], namespaces_dict=dict(ns), instances_report_mode="abs",
+                      remove_empty_shapes=keep).shex_graph(string_output=True)
+        for spelled in (["<http://ex.org/C>", "<http://ex.org/D>", "<http://ex.org/Z>"], ["ex:C", "ex:D", "ex:Z"], ["ex:C", "<http://ex.org/D>", "http://ex.org/Z"]):
+            got = Shaper(raw_graph=SEL_DOC, target_classes=list(spelled), namespaces_dict=dict(ns), instances_report_mode="abs", remove_empty_shapes=keep).shex_graph(string_output=True)
+            if got != want:
+                problems.append("target_classes=%r (remove_empty_shapes=%s) differs from the full-IRI spelling:\n%s\n---\n%s" % (spelled, keep, got, want))
+    return problems
+
+
 def _history_more(name):
+    if name == "selectors-literal-answers":
+        return literal_answers_problems()
+    if name == "target-classes-spellings":
+        return target_class_spellings_problems()
     if name == "shacl-shape-map-prefixed-labels":
         return shacl_shapemap_problems()
     if name == "cross-shaper-isolation":
